@@ -81,6 +81,63 @@ def rule_concat_once(db: ProgramDB) -> List[Instance]:
                         f"`{unparse(c)[:60]}` runs for every child binding" if ok3 else
                         f"`{unparse(c)[:60]}` is conditional on `{unparse(bad[0])[:50]}`: elements can be dropped from "
                         f"the combined list", line=c.lineno))
+    # (a) the one row binds the concatenation itself also when the loop over the child's bindings runs zero times: the
+    # accumulator entry keyed by self._id_ is created outside that loop
+    agg_yields = [nd for nd in cfg.nodes if nd.has_yield and nd.ast is not None and not any(nd.stmt is s or any(z is nd.stmt for z in ast.walk(s)) for s in loop.body)
+                  and not (isinstance(nd.ast, ast.Expr) and isinstance(nd.ast.value, ast.Yield) and isinstance(nd.ast.value.value, ast.Name)
+                           and nd.ast.value.value.id in m.params)]
+    if not agg_yields:
+        raise AnalysisError("Concatenate._evaluate__: the aggregate yield was not found")
+
+    def writes_own_key(nd) -> bool:
+        a = nd.ast
+        if a is None or nd.kind != "stmt":
+            return False
+        if any(nd.stmt is s or any(z is nd.stmt for z in ast.walk(s)) for s in loop.body):
+            return False
+        for x in ast.walk(a):
+            if isinstance(x, ast.Subscript) and unparse(x.slice) == "self._id_":
+                return True
+            if isinstance(x, ast.Dict) and any(k is not None and unparse(k) == "self._id_" for k in x.keys):
+                return True
+        return False
+    for y in agg_yields:
+        pth = cfg.find_path(cfg.entry, lambda nd: nd.id == y.id, kinds=("n",), blocked=writes_own_key)
+        ok4 = pth is None
+        out.append(inst("CONCAT-ONCE", HOLDS if ok4 else VIOLATION, m, "Concatenate._evaluate__[the row binds the concatenation]",
+                        "the entry of the combined list exists before the child's bindings are collected: with no binding at all the row "
+                        "is {concatenation: []}" if ok4 else
+                        "the entry keyed by self._id_ is only created inside the loop over the child's bindings: when the child has no "
+                        "binding at all (an empty parent domain, a sub-query without result) the one row does not bind the concatenation, "
+                        "and every consumer fails with KeyError instead of seeing []", line=y.lineno))
+        # (b) what was bound before the concatenation is evaluated is handed on unchanged: the incoming binding is written
+        # over the aggregated dict, last
+        yv = next((x for x in ast.walk(y.ast) if isinstance(x, ast.Yield)), None)
+        bp = "sources" if "sources" in m.params else None
+        if yv is None or bp is None:
+            continue
+        last_is_sources = False
+        if isinstance(yv.value, ast.Dict):
+            last_is_sources = bool(yv.value.keys) and yv.value.keys[-1] is None and unparse(yv.value.values[-1]) == bp
+        elif isinstance(yv.value, ast.Name):
+            row = yv.value.id
+            writes = []
+            for n2 in own_nodes(m.node):
+                if isinstance(n2, ast.Call) and call_attr(n2) == "update" and isinstance(n2.func.value, ast.Name) and n2.func.value.id == row and n2.args:
+                    writes.append(((n2.lineno, n2.col_offset), unparse(n2.args[0])))
+                elif isinstance(n2, ast.Assign) and any(isinstance(t, ast.Name) and t.id == row for t in n2.targets):
+                    v = n2.value
+                    if isinstance(v, ast.Dict) and v.keys and v.keys[-1] is None:
+                        writes.append(((n2.lineno, n2.col_offset), unparse(v.values[-1])))
+                    else:
+                        writes.append(((n2.lineno, n2.col_offset), "<built>"))
+            writes.sort(key=lambda w: w[0])
+            last_is_sources = bool(writes) and writes[-1][1] == bp
+        out.append(inst("CONCAT-ONCE", HOLDS if last_is_sources else VIOLATION, m, "Concatenate._evaluate__[incoming bindings handed on unchanged]",
+                        f"the incoming binding `{bp}` is written over the aggregated row last" if last_is_sources else
+                        f"the row is handed on without the incoming binding `{bp}` written over it: the concatenation aggregates every id "
+                        f"it sees, so a variable that was bound before (the outer variable of a membership test on the right of or_) comes "
+                        f"back as a list of wrapped values instead of its value", line=y.lineno))
     return out
 
 
@@ -203,4 +260,39 @@ def rule_scalar_classifier(db: ProgramDB) -> List[Instance]:
                         f"`{unparse(rets[0].value)[:80] if rets else '?'}` does not exclude strings by isinstance(…, str): a value whose type "
                         f"derives from str (class Color(str, Enum)) counts as a collection and is split into characters by "
                         f"flatten / concatenate", line=t.lineno))
+    return out
+
+
+# ---------------------------------------------------------------------------------- FLATTEN-OCCURRENCE
+def rule_flatten_occurrence(db: ProgramDB) -> List[Instance]:
+    """Rows are told apart by the identity of the values they bind (duplicate suppression, result caches and the for_all
+    intersection all key on `HashedValue.id_`).  'One row per element, with multiplicity' therefore needs the wrapper built
+    for a flattened element to tell two occurrences of the same object in one collection apart (an identity that depends on
+    the position), because rows of a flattened expression do pass through duplicate suppression (the right side of or_)."""
+    out = []
+    m = db.method("Flatten", "_apply_mapping_", inherited=False)
+    loops = [n for n in own_nodes(m.node) if isinstance(n, ast.For)]
+    if len(loops) != 1:
+        raise AnalysisError("Flatten._apply_mapping_: expected one loop over the inner iterable")
+    loop = loops[0]
+    ys = [y for y in ast.walk(loop) if isinstance(y, ast.Yield) and isinstance(y.value, ast.Call)]
+    if not ys:
+        raise AnalysisError("Flatten._apply_mapping_: the wrapper yielded per element was not found")
+    y = ys[0]
+    positional = False
+    # an index from enumerate(...) (or a counter incremented in the loop) that reaches the wrapper's identity argument
+    idx_names = set()
+    if isinstance(loop.iter, ast.Call) and dotted(loop.iter.func) == "enumerate" and isinstance(loop.target, ast.Tuple):
+        idx_names |= {e.id for e in loop.target.elts[:1] if isinstance(e, ast.Name)}
+    idx_names |= {a.target.id for a in ast.walk(loop) if isinstance(a, ast.AugAssign) and isinstance(a.target, ast.Name)}
+    for k in y.value.keywords:
+        if k.arg == "id_" and {x.id for x in ast.walk(k.value) if isinstance(x, ast.Name)} & idx_names:
+            positional = True
+    if len(y.value.args) > 1 and {x.id for x in ast.walk(y.value.args[1]) if isinstance(x, ast.Name)} & idx_names:
+        positional = True
+    out.append(inst("FLATTEN-OCCURRENCE", HOLDS if positional else VIOLATION, m, "Flatten._apply_mapping_[occurrences of one object are one key]",
+                    "the identity of the wrapper depends on the element's position" if positional else
+                    f"`{unparse(y)}` wraps each element under its own identity only: two occurrences of the same object in one collection "
+                    f"(items == [2, 2, 5]) are one key, so wherever rows are de-duplicated (the right side of or_) the second occurrence "
+                    f"is dropped", line=y.lineno))
     return out
